@@ -955,6 +955,27 @@ class StmtNorm(object):
                     changed[0] = True
                     self.bump('return-temp-forwarded')
                     continue
+                # (5) x = E; S(x)  ->  S(E)   E free of calls, x read once, by S, nowhere else
+                if isinstance(prev, ast.Assign) and len(prev.targets) == 1 and \
+                        isinstance(prev.targets[0], ast.Name) and once(prev.targets[0].id) and \
+                        isinstance(st, (ast.Assign, ast.Expr, ast.Return, ast.AugAssign, ast.Raise)) \
+                        and not any(isinstance(n_, (ast.Call, ast.Yield, ast.YieldFrom, ast.Await,
+                                                    ast.NamedExpr, ast.Lambda, ast.ListComp,
+                                                    ast.DictComp, ast.SetComp, ast.GeneratorExp))
+                                    for n_ in ast.walk(prev.value)):
+                    x_ = prev.targets[0].id
+                    uses = [n_ for n_ in ast.walk(st) if isinstance(n_, ast.Name) and n_.id == x_]
+                    in_scope = not any(isinstance(n_, (ast.Lambda, ast.ListComp, ast.DictComp,
+                                                        ast.SetComp, ast.GeneratorExp))
+                                       and any(m_ is uses[0] for m_ in ast.walk(n_))
+                                       for n_ in ast.walk(st)) if uses else False
+                    if len(uses) == 1 and isinstance(uses[0].ctx, ast.Load) and in_scope:
+                        _NameSub({x_: prev.value}).visit(st)
+                        out.pop()
+                        out.append(st)
+                        changed[0] = True
+                        self.bump('pure-temp-forwarded')
+                        continue
                 # (4) x = E; f(x, ..)  ->  f(E, ..)   x used nowhere else and evaluated first
                 if isinstance(prev, ast.Assign) and len(prev.targets) == 1 and \
                         isinstance(prev.targets[0], ast.Name) and once(prev.targets[0].id) and \
